@@ -268,7 +268,7 @@ func (s *sim) welcome(cfgNick string) {
 func (s *sim) motd() {
 	s.srv("375", s.me.nick, "- "+s.serverName+" Message of the day - ")
 	for i, n := 0, s.r.Intn(4); i < n; i++ {
-		s.srv("372", s.me.nick, Pick(s.r, "- Welcome!", "- ", "- rules: be nice", "-  two  spaces "))
+		s.srv("372", s.me.nick, Pick(s.r, "- Welcome!", "- ", "- rules: be nice", "-  two  spaces ", ""))
 	}
 	s.srv("376", s.me.nick, "End of /MOTD command.")
 	s.cat("motd")
@@ -519,6 +519,14 @@ func (s *sim) randomModes(c *simChan) {
 			s.cat("mode" + string(ch))
 		}
 	}
+	if strings.Contains(classes, "P") && s.r.Intn(3) == 0 {
+		// a NAMES refresh after privilege changes: the listed prefixes replace what was recorded
+		s.pending = append(s.pending, func() {
+			if c.in {
+				s.names(c)
+			}
+		})
+	}
 	if strings.Contains(flags, "+") && strings.Contains(flags, "-") {
 		s.cat("mode+-")
 	}
@@ -588,8 +596,10 @@ func (s *sim) step() {
 			s.srv("PING", Pick(r, "irc.test", "12345"))
 			return
 		case 3:
-			s.emit(s.from(s.users[r.Intn(len(s.users))], Pick(r, "PRIVMSG", "NOTICE"), s.me.nick, "hi there"))
-			return
+			if len(s.users) > 0 {
+				s.emit(s.from(s.users[r.Intn(len(s.users))], Pick(r, "PRIVMSG", "NOTICE"), s.me.nick, "hi there"))
+				return
+			}
 		}
 		s.meJoin()
 		return
@@ -619,6 +629,18 @@ func (s *sim) step() {
 		if len(s.joined()) == 0 {
 			s.cat("zero-channels")
 		}
+		return
+	}
+	if !s.multiPrefix && len(s.prof.pmodes) > 1 && r.Intn(20) == 0 {
+		// without multi-prefix a NAMES refresh lists only the highest prefix: it replaces
+		// the privileges learnt from earlier MODE messages
+		u := ms[r.Intn(len(ms))]
+		lo, hi := s.prof.pmodes[len(s.prof.pmodes)-1], s.prof.pmodes[len(s.prof.pmodes)-2]
+		c.members[u].set(lo, true)
+		c.members[u].set(hi, true)
+		s.srv("MODE", s.chanV(c), "+"+string(lo)+string(hi), s.nickV(u), s.nickV(u))
+		s.names(c)
+		s.cat("names-overwrite")
 		return
 	}
 	if r.Intn(30) == 0 && len(ms) > 1 { // a case-only rename of somebody else, who then leaves
@@ -1041,16 +1063,57 @@ func conformantSig(evs []Ev, obs string) string {
 	if obs == "PANIC" || obs == "WEDGED" || obs == "NOPONG" {
 		return strings.ToLower(obs)
 	}
-	seen := map[string]bool{}
-	classes := ""
+	f := map[string]bool{}
+	me := ""
 	for _, e := range evs {
-		seen[e.Cmd] = true
-		if (e.Cmd == "MODE" || e.Cmd == "324") && len(e.Params) > 1 {
-			if strings.Contains(e.Params[len(e.Params)-1], "!") {
-				classes += "A"
+		switch e.Cmd {
+		case "001":
+			if len(e.Params) > 0 {
+				me = girc.ToRFC1459(e.Params[0])
 			}
+		case "NICK":
+			if len(e.Params) > 0 {
+				if girc.ToRFC1459(e.Name) == girc.ToRFC1459(e.Params[0]) {
+					f["nick-case"] = true
+				}
+				if girc.ToRFC1459(e.Name) == me {
+					f["nick-me"] = true
+					me = girc.ToRFC1459(e.Params[0])
+				}
+			}
+		case "JOIN":
+			if len(e.Params) > 1 {
+				f["extjoin"] = true
+			}
+		case "353":
+			if len(e.Params) > 3 {
+				for _, en := range strings.Fields(e.Params[3]) {
+					if strings.Contains(en, "!") {
+						f["uhnames"] = true
+					}
+					if len(en) > 1 && strings.ContainsAny(en[:1], "~&@%+") && strings.ContainsAny(en[1:2], "~&@%+") {
+						f["multiprefix"] = true
+					}
+				}
+			}
+		case "MODE":
+			if len(e.Params) > 1 && strings.Contains(e.Params[1], "-") && strings.Contains(e.Params[1], "+") {
+				f["mode+-"] = true
+			}
+		case "354":
+			f["whox"] = true
+		case "KICK", "PART":
+			f["leave"] = true
+		}
+		if e.HasAcct {
+			f["tag"] = true
 		}
 	}
+	var ks []string
+	for k := range f {
+		ks = append(ks, k)
+	}
+	sort.Strings(ks)
 	b := func(n int) string {
 		switch {
 		case n == 0:
@@ -1063,7 +1126,7 @@ func conformantSig(evs []Ev, obs string) string {
 	}
 	nch := strings.Count(obs[strings.Index(obs, ";c="):strings.Index(obs, ";u=")], ":") / 4
 	nus := strings.Count(obs[strings.Index(obs, ";u="):strings.Index(obs, ";k=")], ":") / 7
-	return "cmds" + strconv.Itoa(len(seen)/5*5) + "/ch" + b(nch) + "/us" + b(nus/2)
+	return "ch" + b(nch) + "/us" + b(nus/2) + "/" + strings.Join(ks, ",")
 }
 
 // runBeyond: histories a correct server may also send but which the assumptions listed in
